@@ -55,7 +55,17 @@ def gen_op(rng, gd, dist, layers, ic):
         order = ["edges_list", "vertex_names", "adjacency_matrix", "adjacency_matrix_sparse", "named_undirected_edges", "networkx_directed", "networkx_undirected"]
         rng.shuffle(order)
         return ("export", {"order": order})
+    if k < 0.915:
+        dmax = max(dist.values())
+        dep = rng.randint(0, max(0, dmax - 1))
+        outside = [v for v in verts if dist[v] == dep + 1]
+        inside = [v for v in verts if dist[v] <= dep]
+        if outside and inside:
+            return ("restore_path_direct", {"depth": dep, "target": list(rng.choice(outside)), "inside": list(rng.choice(inside))})
+        return ("derive_definitions", {"order": rng.sample(["closed", "inverted", "central"], 3), "central": st})
     if k < 0.93:
+        if rng.random() < 0.5:
+            return ("derive_definitions", {"order": rng.sample(["closed", "inverted", "central"], 3), "central": st})
         return ("modified_copy_bfs", {"central": st})
     if k < 0.97:
         return ("copy_queries", {"central": st, "start": list(rng.choice(verts)), "which": rng.choice(["modified_copy", "inverted"]), "mode": rng.choice(["simple", "advanced"])})
@@ -147,6 +157,27 @@ def do_op(graph, gd, op, args):
                 b_ = exports[nm](graph.bfs(**kwb))
                 out.append([nm, a_ == b_])
             return ("ok", [canon(r.edges_list), out])
+        if op == "restore_path_direct":
+            # the public restore_path on the WHOLE list of layer hashes of a ball (target one step outside it): the caller's result must come back untouched
+            ball = graph.bfs(max_diameter=args["depth"], return_all_hashes=True)
+            before = [canon(h) for h in ball.layers_hashes]
+            try:
+                pth = canon(graph.restore_path(ball.layers_hashes, args["target"]))
+            except AssertionError:
+                pth = "AssertionError"
+            untouched = [canon(h) for h in ball.layers_hashes] == before
+            return ("ok", [pth, untouched, canon(graph.find_path_to(args["inside"], ball))])
+        if op == "derive_definitions":
+            # definitions derived from the graph's definition are NEW objects: the definition of the graph stays what it was
+            d0 = graph.definition
+            outs = []
+            for nm in args["order"]:
+                try:
+                    dd = d0.make_inverse_closed() if nm == "closed" else d0.with_inverted_generators() if nm == "inverted" else d0.with_central_state(args["central"])
+                    outs.append([nm, len(dd.generators), list(dd.generator_names)[:3]])
+                except AssertionError:
+                    outs.append([nm, "AssertionError"])
+            return ("ok", [outs, int(d0.n_generators), len(d0.generators), len(d0.generator_names)])
         if op == "modified_copy_bfs":
             g2 = graph.modified_copy(graph.definition.with_central_state(args["central"]))
             same_hash = canon(g2.hasher.make_hashes(g2.encode_states(args["central"]))) == canon(graph.hasher.make_hashes(graph.encode_states(args["central"])))
@@ -229,6 +260,13 @@ def run(ctx):
                                                              "as": rng.choice(["central_state_of_the_graph", "tensor", "ndarray"])}))
         ops.insert(rng.randint(1, len(ops)), ("copy_queries", {"central": list(rng.choice(verts_)), "start": list(rng.choice(verts_)),
                                                               "which": rng.choice(["modified_copy", "inverted"]), "mode": rng.choice(["simple", "advanced"])}))
+        # every sequence derives new definitions from the graph's own definition once and calls the public restore_path on a whole ball once
+        ops.insert(rng.randint(0, len(ops)), ("derive_definitions", {"order": rng.sample(["closed", "inverted", "central"], 3), "central": list(rng.choice(verts_))}))
+        dmax_ = max(dist.values())
+        if dmax_ >= 1:
+            dep_ = rng.randint(0, dmax_ - 1)
+            ops.insert(rng.randint(0, len(ops)), ("restore_path_direct", {"depth": dep_, "target": list(rng.choice([v for v in verts_ if dist[v] == dep_ + 1])),
+                                                                         "inside": list(rng.choice([v for v in verts_ if dist[v] <= dep_]))}))
         graph = G.make_graph(gd, cfgd)
         snap0 = snapshot(graph)
         kinds = {o for o, _ in ops}
@@ -250,6 +288,10 @@ def run(ctx):
                 break
             if op == "apply_path" and got[0] == "ok" and args.get("as") in ("list", "tensor", "ndarray") and (got[1][1] is not True or got[1][2] is not True):
                 ctx.violation("property_fails", f"operation #{j} (apply_path with a {args['as']} argument) modified its argument or answers differently when repeated: {str(got)[:160]}",
+                              dict(case, failing_index=j, got=str(got)[:300]), True)
+                break
+            if op == "restore_path_direct" and got[0] == "ok" and got[1][1] is not True:
+                ctx.violation("property_fails", f"operation #{j} (restore_path on the layer hashes of a BFS result) changed the result it was given (later queries on it go wrong)",
                               dict(case, failing_index=j, got=str(got)[:300]), True)
                 break
             if op == "export" and got[0] == "ok" and not all(ok_ for _nm, ok_ in got[1][1]):
@@ -282,6 +324,8 @@ def replay(ctx, obj):
             fresh = do_op(G.make_graph(gd, cfgd), gd, op, args)
             if op == "copy_queries" and got[0] == "ok" and (got[1][0] != got[1][1] or not got[1][0][2]):
                 return f"operation #{j}: derived copy answers {got[1][0]}, a directly constructed graph {got[1][1]}"
+            if op == "restore_path_direct" and got[0] == "ok" and got[1][1] is not True:
+                return f"operation #{j}: restore_path changed the BFS result it was given"
             if got != fresh:
                 return f"operation #{j} ({op}) differs from a fresh graph: {str(got)[:150]} vs {str(fresh)[:150]}"
             if snapshot(graph) != snap0:
